@@ -12,9 +12,9 @@ Extracted from Cargo.toml, impl/Cargo.toml, impl/src/**, src/** (the two crates'
     optional dependencies (`convert_case`, `unicode_xid`, `syn::visit`) - each with the guard of the containing code;
   * the facade feature -> impl feature map, `full` / `default` lists of both crates, the derive table.
 
-Every (use guard, definition guard) pair goes to `cfg_pairs`; pairs the translator's own truth table refutes go to
-`cfg_exceptions` (the Coq side PROVES each of them refuted with a witness, and the check reports each as a
-violation / known finding) so that the development always builds.
+Every (use guard, definition guard) pair goes to `cfg_pairs`.  The translator's own truth table also flags refuted
+pairs (returned as `exceptions`, with a witness feature set) so that the check can search for an input reaching the
+use; in the Coq development a refuted pair breaks the obligation C20_defined_where_used.
 
 Non-feature cfgs: docsrs -> false, doc -> false (documentation builds are out of scope), test -> items skipped,
 `ci`, `nightly` -> free variables.  Unknown cfg syntax, unknown item-level macros, unresolvable crate paths are errors.
@@ -1244,8 +1244,9 @@ def render(x):
         L_.append("  [ " + ";\n    ".join(rows) + " ].")
         L_.append("")
 
-    pairs_def("cfg_pairs", x["ok_pairs"])
-    pairs_def("cfg_exceptions", x["exceptions"])
+    # ALL pairs, including any the translator's own truth table refutes (x["exceptions"]): a refuted pair breaks
+    # the proof obligation C20_defined_where_used itself
+    pairs_def("cfg_pairs", x["ok_pairs"] + x["exceptions"])
     L_.append("(* derive macro exports of the facade: (place/derive label, export guard, feature variable) *)")
     L_.append("Definition derive_exports : list (string * formula * N) :=")
     L_.append("  [ " + ";\n    ".join("(%s, %s, %d)" % (coq_string(e["place"] + "::" + e["derive"]),
